@@ -41,6 +41,7 @@ def run(ctx: Ctx) -> None:
     tableau.rule_measure_rowset(ctx)
     tableau.rule_outcome_used(ctx)
     tableau.rule_basis_restored(ctx)
+    tableau.rule_symplectic_form_dim(ctx)
     tableau.rule_keep_complement(ctx, [gatesum.SSTATE])
     gatesum.rule_derived_gates(ctx)
     from .c11 import rule_reverse_table
